@@ -48,6 +48,10 @@ CHECKS = {
    technique="configuration x input product with an interceptor-log reference model: 30/56 interceptor configurations (counts up to 8, every pass-through/re-entrant expression sequence <= 3/4, direct or via plugins) x all token sequences <= 3/4 (valid and malformed), all expression chains <= depth 3, statement families; results compared with the interceptor-free run, logs checked against the step model, second parser from the same builder",
    text="Every enumerated input is run under every interceptor configuration of the tier on the real lexer/parser builders; each run is compared with the interceptor-free run (tokens, tree with positions, errors, output) and its interceptor log is checked against the reference log model (complete runs in installation order, same steps in every configuration, entry token = first token of the construct returned, every statement/operand produced by exactly one step, token interceptors once per request on the lexeme's first byte, a second parser from the same builder logs the same). Chain-order and binding-power-restore slips need a specific chain length, position of the re-entrant interceptor and expression depth; the product covers all of them within the bounds.",
    note="trusted: leftmost-token function and step-coverage walk over xjs nodes (props/c04.go); a re-entrant interceptor ends the chain by construction"),
+ "C05": dict(cat="model_checking", sec="4 C05",
+   technique="explicit-state exploration of registration histories (all call sequences <= 4/5 over 25 registry calls, real builders in lock-step with a registry model, probe parses after every step) + exhaustive operator-string enumeration per precedence level against a precedence-climbing reference and a built-in-substitution oracle",
+   text="Every registration history up to the bound is replayed on fresh real builders in lock-step with the registry model (ids, refusals), and after every step a probe set is parsed and compared with what the precedence-climbing reference predicts for the model's operator table - which also shows that a refused registration left the parser unchanged. For every level 1..13 every flat operator string of the tier (all built-in neighbours on both sides, every single prefix/suffix decoration) is parsed with plugin operators and compared with the reference grouping and with the built-in operator of the same level. An off-by-one in a right-operand level or a registration written to the wrong table shows at one specific level/neighbour/history; all are enumerated.",
+   note="trusted: R-prec (xmc/ref/rprec.go, 250 lines) and the registry model in props/c05.go; postfix-vs-infix role sharing on one token is outside the model"),
 }
 NA_REASON = {}
 def main():
